@@ -531,9 +531,11 @@ impl<'a, R: RealNumberInternalTrait> Interpreter<'a, R> {
                     .imported_library
                     .insert(lib_name.clone().extract_data())
                 {
-                    let library = self.get_library(lib_name.clone())?;
+                    // the in-progress mark is removed on the error path too: a failed import must
+                    // not make every later import of the library look cyclic
+                    let library = self.get_library(lib_name.clone());
                     self.imported_library.remove(lib_name);
-                    Ok(library
+                    Ok(library?
                         .iter_definitions()
                         .map(|(name, value)| (name.clone(), value.clone()))
                         .collect())
